@@ -22,6 +22,9 @@ Fixpoint get (m : tvalues) (k : string) : option tvalue :=
   end.
 
 Definition len (m : tvalues) : N := N.of_nat (List.length m).
+Definition is_empty (m : tvalues) : bool := match m with [] => true | _ => false end.
+(** [Index<&str>]: the value, or a panic ([None]) when the name is not defined *)
+Definition index (m : tvalues) (k : string) : option tvalue := get m k.
 Definition iter (m : tvalues) : list (string * tvalue) := m.
 Definition iter_back (m : tvalues) : list (string * tvalue) := rev m.
 Definition into_iter (m : tvalues) : list (string * tvalue) := m.
